@@ -32,7 +32,7 @@ def run(ctx):
         rm = s.st.facts.get("retries.remove_headers_on_redirect", (None, None))[0]
         hdrs = s.args.get("headers")
         strip = s.st.ts.get("strip", ())
-        member_key = tuple(v for a, v in s.dec().items() if "remove_headers_on_redirect" in a and " in " in a)
+        member_key = tuple(v for k_, v in sorted(s.st.ts.items(), key=str) if isinstance(k_, tuple) and len(k_) == 4 and k_[0] == "cmp" and k_[2] == "in" and str(k_[3]).startswith("retries.remove_headers"))
         key = (same, rm, tuple(sorted(hdrs.tags)) if hdrs is not None else None, bool(strip), s.st.ts.get("same_host_arg"), member_key)
         if key in seen:
             continue
@@ -49,8 +49,7 @@ def run(ctx):
             ok_copy = hdrs is not None and "copy" in hdrs.tags
             ctx.ob(R1, fi.qual, "cross-origin resend carries a fresh copy of the headers (the caller's mapping is not edited in place)", ok_copy,
                    "" if ok_copy else "the headers passed to the other origin are not the stripped copy", witness=s.st.witness(), node=s.node)
-            dec = s.dec()
-            member = [v for a, v in dec.items() if "remove_headers_on_redirect" in a and " in " in a]
+            member = list(member_key)
             stripped_this = [x for x in strip if hdrs is not None and x[0] == hdrs.sym]
             if member and member[-1] is True:
                 n_member_true += 1
@@ -75,22 +74,36 @@ def run(ctx):
             ctx.ob(R5, fi.qual, "the stripped copy is the `headers` slot of the **kw splat", ok_copy, witness=s.st.witness(), node=s.node)
     ctx.sites(R1, n_member_true, 1, "paths on which a header matches the removal set")
     ctx.sites(R1, n_cross, 1, "cross-origin resend paths")
-    # the copy must come from the headers slot itself
-    uo = fi
-    copies = [n for n in astq.walk_fn(uo.node) if isinstance(n, ast.Assign) and isinstance(n.value, ast.Call) and isinstance(n.value.func, ast.Attribute) and n.value.func.attr == "copy"]
-    ok = any("headers" in astq.text(c.value.func.value) for c in copies)
-    ctx.ob(R1, uo.qual, "the copy is taken from the request's headers", ok)
+    # the copy must come from the headers slot itself (provenance of the mapping that was copied)
+    for s in sites:
+        hdrs = s.args.get("headers")
+        if s.st.facts.get("same_host", (None, None))[0] is False and s.st.facts.get("retries.remove_headers_on_redirect", (None, None))[0] is True and hdrs is not None and "copy" in hdrs.tags:
+            src = sorted(t for t in hdrs.tags if t != "copy")
+            ok = any(t in ("entry", "self.headers") or t.startswith("entry:") for t in src)
+            if ("copy-src", tuple(src)) not in seen:
+                seen.add(("copy-src", tuple(src)))
+                ctx.ob(R1, fi.qual, f"the copy is taken from the request's headers (provenance {src})", ok, "" if ok else "the stripped copy is not a copy of the outgoing headers", witness=s.st.witness(), node=s.node)
     # no other place re-injects headers after the strip: between strip and resend, kw['headers'] is not re-bound to something unstripped (R5 covers via provenance)
 
     init = m.method(RETRY, "__init__")
-    st = [n for n in astq.walk_fn(init.node) if isinstance(n, ast.Assign) and astq.is_self_attr(n.targets[0], "remove_headers_on_redirect")]
-    ctx.sites(R2, len(st), 1, "stores of remove_headers_on_redirect")
-    for n in st:
-        v = n.value
-        ok = isinstance(v, ast.Call) and astq.call_text(v) in ("frozenset", "set") and v.args and isinstance(v.args[0], (ast.GeneratorExp, ast.SetComp, ast.ListComp)) \
-            and isinstance(v.args[0].elt, ast.Call) and isinstance(v.args[0].elt.func, ast.Attribute) and v.args[0].elt.func.attr == "lower" \
-            and astq.text(v.args[0].generators[0].iter) == "remove_headers_on_redirect"
-        ctx.ob(R2, init.qual, f"`{astq.text(n)[:80]}` lower-cases the configured names", ok, "" if ok else "names configured as `Authorization` would never match the lower-cased test", node=n)
+    from ..rows import GenRule as _G2, effect_rows as _e2
+    from ..terms import destruct as _d2
+    rows2 = [r for r in _e2(ctx, init, _G2(ctx, init.module), RETRY, budget=600000) if r.returns]
+    stores2 = {e_[3] for r in rows2 for e_ in r.events("store") if e_[1] == "self" and e_[2] == "remove_headers_on_redirect"}
+    ctx.sites(R2, len(stores2), 1, "distinct values stored to remove_headers_on_redirect")
+    for r in rows2:
+        if not any(e_[1] == "self" and e_[2] == "remove_headers_on_redirect" for e_ in r.events("store")):
+            ctx.ob(R2, init.qual, "every constructed policy stores its removal set", False, witness=r.witness(), node=init.node)
+            break
+    SRC = "p:remove_headers_on_redirect"
+    for t_ in sorted(stores2):
+        op, args = _d2(t_)
+        ok = op in ("frozenset", "set") and len(args) == 1
+        if ok:
+            op2, a2 = _d2(args[0])
+            # a comprehension over the configured names whose element is the lower-cased name, without a filter
+            ok = op2 in ("gen", "listcomp", "setcomp") and len(a2) == 2 and a2[1] == SRC and _d2(a2[0]) == ("lower", (f"each({SRC})",))
+        ctx.ob(R2, init.qual, f"`{t_[:100]}` lower-cases the configured names", ok, "" if ok else "names configured as `Authorization` would never match the lower-cased test", node=init.node)
     others = []
     for name, f2 in m.cls(RETRY).methods.items():
         if name != "__init__":
@@ -107,41 +120,106 @@ def run(ctx):
 
     R4 = ctx.rule("C06-R4", "origin equality compares scheme, host and port: is_same_host returns (scheme, host, port) == (self.scheme, self.host, self.port) with the URL's host normalised like the pool's and default ports made explicit", "E6 read-set")
     ish = m.method(f"{CP}.HTTPConnectionPool", "is_same_host")
-    rets = [r for r in astq.walk_fn(ish.node) if isinstance(r, ast.Return)]
-    final = [r for r in rets if isinstance(r.value, ast.Compare)]
-    ctx.sites(R4, len(final), 1, "comparing return in is_same_host")
-    for r in final:
-        c = r.value
-        ok = len(c.ops) == 1 and isinstance(c.ops[0], ast.Eq) and isinstance(c.left, ast.Tuple) and isinstance(c.comparators[0], ast.Tuple)
-        if ok:
-            L = [astq.text(e) for e in c.left.elts]
-            Rr = [astq.text(e) for e in c.comparators[0].elts]
-            if L[0].startswith("self."):
-                L, Rr = Rr, L
-            ok = sorted(Rr) == ["self.host", "self.port", "self.scheme"] and len(L) == 3
-            if ok:
-                order = [x.split(".")[1] for x in Rr]
-                # each URL-side component derives from parse_url(url)
-                for name, comp in zip(L, order):
-                    srcs = astq.sources_of(ish.node, ast.parse(name).body[0].value)
-                    txt = " ".join(astq.text(s) for s in srcs)
-                    okc = "parse_url(url)" in txt
-                    ctx.ob(R4, ish.qual, f"{comp} of the target comes from parse_url(url)", okc, txt[:100], node=r)
-        ctx.ob(R4, ish.qual, f"`{astq.text(r)}` compares all three components", ok,
-               "" if ok else "a redirect that changes only the scheme or only the port would count as same origin", node=r)
-    txt = astq.text(ish.node)
-    norm_calls = [n for n in astq.walk_fn(ish.node) if isinstance(n, ast.Assign) and isinstance(n.value, ast.Call) and astq.call_text(n.value) == "_normalize_host"
-                  and isinstance(n.targets[0], ast.Name) and n.value.args and astq.text(n.value.args[0]) == n.targets[0].id]
-    ctx.ob(R4, ish.qual, "the target host passes the same normaliser as the pool's host", bool(norm_calls))
+    from ..rows import GenRule, effect_rows, helper_closure
+    from ..terms import K, T, destruct
+    # field order of the Url named tuple (so that `parse_url(u).host` and positional unpacking name the same component)
+    urlcls = m.classes.get("urllib3.util.url.Url")
+    fields = []
+    if urlcls is not None:
+        for b_ in urlcls.node.bases:
+            if isinstance(b_, ast.Call) and len(b_.args) == 2 and isinstance(b_.args[1], (ast.List, ast.Tuple)):
+                fields = [e.elts[0].value for e in b_.args[1].elts if isinstance(e, ast.Tuple) and isinstance(e.elts[0], ast.Constant)]
+    if fields[:4] != ["scheme", "auth", "host", "port"]:
+        raise AnalysisError(f"Url named-tuple fields not recognised: {fields}")
+    PU = T("parse_url", "p:url")
+
+    def canon(t_):
+        for i_, f_ in enumerate(fields):
+            t_ = t_.replace(f"{PU}.{f_}", f"idx({PU},{i_})")
+        return t_
+
+    S_, H_, P_ = (f"idx({PU},{i_})" for i_ in (0, 2, 3))
+    rows4 = [r for r in effect_rows(ctx, ish, GenRule(ctx, ish.module, pure_self=()), f"{CP}.HTTPConnectionPool", budget=900000) if r.returns]
+    ctx.sites(R4, len(rows4), 8, "rows of is_same_host")
+    seen4 = set()
+    n_cmp = 0
+    for r in rows4:
+        facts = {canon(k_): v_ for k_, v_ in r.st.facts.items()}
+        memos = {}
+        others = []
+        for k_, v_ in r.st.ts.items():
+            if isinstance(k_, tuple) and len(k_) == 4 and k_[0] == "cmp":
+                a_, b_ = canon(k_[1]), canon(k_[3])
+                if k_[2] == "==" and (a_ in ("self.scheme", "self.host", "self.port") or b_ in ("self.scheme", "self.host", "self.port")):
+                    fld, oth = (a_, b_) if a_.startswith("self.") and a_ in ("self.scheme", "self.host", "self.port") else (b_, a_)
+                    memos[fld] = (oth, v_)
+                else:
+                    others.append((a_, k_[2], b_, v_))
+        val = r.o.st.view(r.o.val) if r.o.kind == "return" else None
+        v = (val.val if val.kind == "const" else val.truth) if val is not None else None
+        path_only = facts.get(T("startswith", "p:url", K("/")), (None, None))[0]
+        if not memos:
+            ok = v is True and path_only is True
+            key = ("nocmp", v, path_only)
+            if key not in seen4:
+                seen4.add(key)
+                ctx.ob(R4, ish.qual, f"without any comparison -> {v} only for a path-only target (startswith('/')={path_only})", ok,
+                       "" if ok else "a target is declared same-origin (or not) without comparing scheme, host and port", witness=r.witness(), node=ish.node)
+            continue
+        n_cmp += 1
+        s_truth = facts.get(S_, (None, None))[0]
+        scheme_eff = S_ if s_truth is True else (K("http") if s_truth is False else None)
+        problems = []
+        if "self.scheme" in memos:
+            if scheme_eff is None or memos["self.scheme"][0] != scheme_eff:
+                problems.append(f"scheme compared is `{memos['self.scheme'][0]}` (expected the target's scheme, 'http' when absent)")
+        DFLT = T("get", "g:port_by_scheme", scheme_eff) if scheme_eff else None
+        if "self.host" in memos:
+            h_none = facts.get(H_, (None, None))[1]
+            want_h = H_ if h_none is True else (T("_normalize_host", H_, f"scheme={scheme_eff}") if scheme_eff else None)
+            got = memos["self.host"][0]
+            if not (got == want_h or (h_none is True and got == "None")):
+                problems.append(f"host compared is `{got}` (expected the target's host through the pool's normaliser)")
+        if "self.port" in memos:
+            got = memos["self.port"][0]
+            sp, up = facts.get("self.port", (None, None))[0], facts.get(P_, (None, None))[0]
+            eqd = None
+            for a_, op_, b_, v_ in others:
+                if op_ == "==" and {a_, b_} == {P_, DFLT}:
+                    eqd = v_
+            if got == DFLT:
+                okp = sp is True and up is False
+            elif got == "None":
+                okp = sp is False and eqd is True
+            elif got == P_:
+                okp = not (sp is True and up is False) and not (sp is False and eqd is True) and sp is not None
+            else:
+                okp = False
+            if not okp:
+                problems.append(f"port compared is `{got}` with self.port truthy={sp}, target port truthy={up}, target port == default: {eqd} (default ports must be made explicit on exactly one side)")
+        truths = [memos[f_][1] for f_ in ("self.scheme", "self.host", "self.port") if f_ in memos]
+        if v is True and not (len(truths) == 3 and all(truths)):
+            problems.append(f"returns True with only {sorted(memos)} compared equal")
+        if v is False and all(truths):
+            problems.append("returns False although every comparison made was equal")
+        if v is None:
+            problems.append("result is not a decided boolean")
+        key = (tuple(sorted((k_, v_[0], v_[1]) for k_, v_ in memos.items())), v, tuple(problems))
+        if key in seen4:
+            continue
+        seen4.add(key)
+        ctx.ob(R4, ish.qual, f"row {[(k_[5:], v_[1]) for k_, v_ in sorted(memos.items())]} -> {v}", not problems,
+               "; ".join(problems) + (": a redirect that changes only the scheme, host or port would count as same origin" if problems else ""), witness=r.witness(), node=ish.node)
+    ctx.sites(R4, n_cmp, 6, "comparing rows of is_same_host")
     cpi = m.method(f"{CP}.ConnectionPool", "__init__")
-    ctx.ob(R4, cpi.qual, "the pool's host is normalised with _normalize_host", "self.host = _normalize_host(host, scheme=self.scheme)" in astq.text(cpi.node))
+    rows_i = [r for r in effect_rows(ctx, cpi, GenRule(ctx, cpi.module), f"{CP}.ConnectionPool") if r.returns]
+    ctx.sites(R4, len(rows_i), 1, "returning rows of ConnectionPool.__init__")
+    for r in rows_i:
+        st_ = [e_[3] for e_ in r.events("store") if e_[1] == "self" and e_[2] == "host"]
+        ok = bool(st_) and destruct(st_[-1])[0] == "_normalize_host" and destruct(st_[-1])[1][:1] == ("p:host",)
+        ctx.ob(R4, cpi.qual, "the pool's host is normalised with _normalize_host", ok, f"self.host = {st_[-1] if st_ else '?'}", witness=r.witness(), node=cpi.node)
     pbs = fold.need("urllib3.connection", "port_by_scheme")
     ctx.ob(R4, "urllib3.connection", "default ports: http 80, https 443", pbs == {"http": 80, "https": 443}, str(pbs))
-    early = [r for r in rets if isinstance(r.value, ast.Constant) and r.value.value is True]
-    for r in early:
-        g = astq.enclosing(r, ast.If)
-        ok = g is not None and astq.text(g.test).replace("'", '"') == 'url.startswith("/")'
-        ctx.ob(R4, ish.qual, "only a path-only target is same-origin without comparison", ok, astq.text(g.test) if g is not None else "", node=r)
 
     R6 = ctx.rule("C06-R6", "a single-host pool refuses a cross-host target before any I/O: the HostChangedError test dominates taking a connection, and the redirect resend forwards assert_same_host unchanged", "E3 dominance via E4")
     prule, pfi, pouts = resend.analyse(ctx, "pool")
@@ -161,11 +239,22 @@ def run(ctx):
     rs = [s for s in prule.sites if s.kind == "resend"]
     okf = all("entry:assert_same_host" in s.args["assert_same_host"].tags for s in rs if "assert_same_host" in s.args) and all("assert_same_host" in s.args for s in rs)
     ctx.ob(R6, pfi.qual, "every pool-level resend forwards assert_same_host unchanged", bool(okf))
-    # the tested url is the request's url
-    tests = [c for c in astq.calls(pfi.node) if astq.call_text(c) == "self.is_same_host"]
-    ctx.ob(R6, pfi.qual, "the host test is made on the url being requested", bool(tests) and all(astq.text(c.args[0]) == "url" for c in tests))
-    raises = [n for n in astq.walk_fn(pfi.node) if isinstance(n, ast.Raise) and n.exc is not None and "HostChangedError" in astq.text(n.exc)]
-    ctx.ob(R6, pfi.qual, "the refusal is HostChangedError", bool(raises))
+    # the tested url is the request's url (provenance of the argument of the host test on the paths that reach a request / a refusal)
+    args_seen = set()
+    for o in pouts:
+        a_ = o.st.ts.get("pool_same_host_arg")
+        if a_ is not None:
+            args_seen.add(a_)
+    for s in reqs:
+        a_ = s.st.ts.get("pool_same_host_arg")
+        if a_ is not None:
+            args_seen.add(a_)
+    ctx.ob(R6, pfi.qual, "the host test is made on the url being requested", bool(args_seen) and all(a_ == ("entry:url",) for a_ in args_seen), f"tested: {sorted(args_seen)}")
+    refusals = [o for o in pouts if o.kind == "raise" and str(o.val.val).endswith("HostChangedError")]
+    okr = bool(refusals) and all(o.st.facts.get("p:assert_same_host", (None, None))[0] is True and o.st.facts.get("pool_same_host", (None, None))[0] is False
+                                 and not o.st.ts.get("got_conn") and not o.st.ts.get("attempt") for o in refusals)
+    ctx.ob(R6, pfi.qual, "the refusal is HostChangedError, raised before a connection is taken, exactly when the host test fails under assert_same_host", okr,
+           "" if okr else f"{len(refusals)} refusing paths", witness=refusals[0].st.witness() if refusals else None, node=pfi.node)
 
 
 # ---------------------------------------------------------------------------- R7 (added after seeded change C06/empty-stripped-headers-redefaulted)
